@@ -287,6 +287,24 @@ CHECKS = {
              'to the horizon for at-least-once / exactly-once.',
         note='1 s virtual clock, time advances only at quiescence; '
              'transactions atomic; scenario list and bounds in evidence.'),
+    'C20': dict(
+        level='model_checking', design='3/C20',
+        technique='explicit-state model checking of the implementation: '
+                  'DFS over interleavings of real heartbeat-checker passes, '
+                  'lost executors, heartbeats, late results and the '
+                  'integrity-check job chain at chosen virtual-clock '
+                  'positions; step and terminal oracles',
+        text='Every subset of synchronous actions goes silent (request '
+             'consumed without result); real handle_expired_actions passes '
+             'run at threshold-1 / threshold / threshold+1 in every order '
+             'with heartbeats and late results: only synchronous RUNNING '
+             'actions older than the threshold are failed, none is left '
+             'behind by a pass, late results change nothing, the run then '
+             'follows the language semantics for "that action failed"; a '
+             'task made stuck by a lost completion job is repaired by the '
+             'integrity check after the delay, once, never when disabled, '
+             'also across pause/resume.',
+        note='Checker loop replaced by explicit passes; virtual clock.'),
 }
 
 NOT_YET = 'check not built yet in this revision (work in progress)'
